@@ -31,7 +31,9 @@ RegMenu == <<
     F("a:1", 1, 3, T_String, 0, 0, 246, LE_LOW, "r13"),
     F("b:2", 1, 1120, T_Uint64, 0, 0, 0, 0, "r14"),
     F("a:1", 1, 65411, T_Int32, 0, 0, 0, LE_LOW, "r15"),
-    F("a:1", 1, 2, T_Uint8, 0, 1, 0, 0, "r16") >>
+    F("a:1", 1, 2, T_Uint8, 0, 1, 0, 0, "r16"),
+    F("a:1", 1, 12, T_Bit, 7, 0, 0, 0, "r17"),
+    F("a:1", 1, 12, T_Bit, 8, 0, 0, 0, "r18") >>
 CoilMenu == <<
     F("a:1", 1, 0, T_Coil, 0, 0, 0, 0, "c1"),
     F("a:1", 1, 1999, T_Coil, 0, 0, 0, 0, "c2"),
